@@ -3650,6 +3650,11 @@ class NameCheckVisitor(node_visitor.ReplacingNodeVisitor):
             return Constraint(varname, ConstraintType.predicate, positive, predicate)
         else:
             positive_operator, negative_operator, ext = COMPARATOR_TO_OPERATOR[type(op)]
+            if not is_right:
+                # `3 < x` says about x what `x > 3` says
+                swapped = _SWAPPED_COMPARATORS.get(type(op))
+                if swapped is not None:
+                    ext = COMPARATOR_TO_OPERATOR[swapped][2]
 
             def predicate_func(value: Value, positive: bool) -> Optional[Value]:
                 op = positive_operator if positive else negative_operator
